@@ -25,6 +25,8 @@ MARGIN = 500_000_000      # ns
 SLACK = 2_000             # ns
 U32 = 1 << 32
 U64 = 1 << 64
+I63 = 1 << 63
+FAKE_BASE = 10 ** 15     # absolute value (ns) of the script clock's origin in the harness
 
 
 def fb(x):
@@ -73,6 +75,11 @@ class Itc:
 
 
 def sec_to_ns_exact(d):
+    """the duration in ns, exactly; +-inf stay floats, NaN is None (the property says nothing)"""
+    if d != d:
+        return None
+    if d in (float("inf"), -float("inf")):
+        return d
     return Fraction(d) * 1000000000
 
 
@@ -90,6 +97,7 @@ class Spec:
         self.rounding_sensitive = 0
         self.uncertain = 0
         self.inv = {}
+        self.synced = False   # a `sync` handshake since the last op that can change a poller's result
 
     # ---- helpers
     def leaf(self, i):
@@ -102,6 +110,10 @@ class Spec:
 
     def timed_value(self, o, extra=0):
         d = o.dur_ns
+        if d is None or d == -float("inf"):
+            return None                   # NaN / minus infinity: no demand
+        if d == float("inf"):
+            return False                  # an infinite duration never elapses
         if self.fake:
             el = self.clock - o.start
             if el > d + SLACK:
@@ -136,14 +148,19 @@ class Spec:
         if o.term:
             return True
         if o.polled:
+            if o.kind == "timed" and self.fake and self.synced:
+                v = self.timed_value(o)
+                if v is None:
+                    raise Uncertain()
+                return v
             if o.kind == "timed" and not self.fake:
                 v = self.timed_value(o, o.period)     # initial cache is false; needs no settling to be false
                 if v is False:
                     return False
-                if v is True and self.R - self.dirty >= o.period + MARGIN:
+                if v is True and (self.synced or self.R - self.dirty >= o.period + MARGIN):
                     return True
                 raise Uncertain()
-            if self.R - self.dirty < o.period + MARGIN:
+            if not self.synced and self.R - self.dirty < o.period + MARGIN:
                 raise Uncertain()
             v = self.pure(o)
             if v is None:
@@ -209,7 +226,7 @@ class Spec:
         """period: None (one-argument constructor) or seconds (float)"""
         pns = None
         if period is not None and period > 0:
-            pns = int(period * 1e9)
+            pns = max(1, int(min(period, 1e9) * 1e9))
         k = spec[0]
         if k == "pred":
             lf = self.leaf(spec[1])
@@ -223,9 +240,12 @@ class Spec:
                 return None
             src = self.itcs[spec[1]]
             return Obj("iter", n=src.n, count=src.count, lost=src.lost, period=pns)
-        if k == "timed":
-            return Obj("timed", dur_ns=sec_to_ns_exact(spec[1]), start=self.clock, startR=self.R, period=pns,
-                       seen_true=None)
+        if k in ("timed", "timedns"):
+            dn = Fraction(spec[1]) if k == "timedns" else sec_to_ns_exact(spec[1])
+            # does start + duration leave the clock's 64-bit nanosecond range?  (finding F195)
+            over = dn is not None and (dn in (float("inf"), -float("inf")) or
+                                       not (-I63 <= FAKE_BASE + self.clock + dn < I63))
+            return Obj("timed", dur_ns=dn, start=self.clock, startR=self.R, period=pns, seen_true=None, overflowing=over)
         raise AssertionError(k)
 
     def step(self, line, out):
@@ -333,6 +353,52 @@ class Spec:
             exp, klass = "ok", "handshake"      # "timeout" = the poller never got there: a failure of the scenario
         elif op == "settle" and len(t) == 1:
             exp, klass = "ok", "handshake"
+        elif op == "period" and len(t) == 2:
+            touch = False
+            klass = "period"
+            if t[1] not in self.names:
+                exp = "unknown"
+            else:
+                if out == "period=?":
+                    return (None, klass)
+                exp = "period=" + getattr(self.names[t[1]], "period_bits", fb(-1.0))
+        elif op == "sync" and len(t) == 1:
+            klass = "handshake"
+            if self.fake:
+                if out != "ok":
+                    return ("`sync` answered %r (the poller did not read the clock twice within the bound)" % out, klass)
+                self.synced = True
+                return (None, klass)
+            exp = "bad-op"
+        elif op == "solvefn" and len(t) == 3 and t[1].isdigit() and t[2].isdigit() and int(t[2]) < 1 << 64:
+            klass = "solvefn"
+            lf = self.leaf(int(t[1]))
+            itv = bf(t[2])
+            if itv > 0:
+                # Planner::solve(fn, interval) with a positive interval: the periodic form
+                lf.async_ = True
+                v = ("1" if lf.tail else "0") * 3 if not lf.vals else "?"
+                want = ["polled=1", "period=" + str(int(t[2])), "vals=" + v, "inv=-"]
+            else:
+                vs = ""
+                for _ in range(3):
+                    vs += "1" if lf.value(lf.calls) else "0"
+                    lf.calls += 1
+                want = ["polled=0", "period=" + str(int(t[2])), "vals=" + vs, "inv=%d:3" % int(t[1])]
+            self.dirty = self.R
+            self.synced = False
+            got = out.split()
+            if len(got) != 4 or [g.split("=")[0] for g in got] != ["polled", "period", "vals", "inv"]:
+                return ("unparsable answer %r to `%s`" % (out, line), "protocol")
+            if got[0] == "polled=?":
+                self.uncertain += 1
+                return (None, klass)          # the harness could not observe the form conclusively
+            for g, w in zip(got, want):
+                if g.endswith("=?") or w.endswith("=?"):
+                    continue
+                if g != w:
+                    return ("Planner::solve(fn, %r) answered %r, the property says %r" % (itv, out, " ".join(want)), klass)
+            return (None, klass)
         elif op == "cost" and len(t) == 2 and t[1].isdigit() and int(t[1]) < 1 << 64:
             if self.cb is None:
                 exp = "none"
@@ -375,6 +441,7 @@ class Spec:
             exp = "bad-op"
         if touch:
             self.dirty = self.R
+            self.synced = False
         if exp is not None and out != exp:
             return ("`%s` answered %r, the property says %r" % (line, out, exp), klass)
         return (None, klass)
@@ -394,14 +461,19 @@ class Spec:
             lf = self.parse_leaf(rest[2:])
             if lf is None:
                 return "bad-op"
-            form = ("leaf", lf, bf(rest[1]))
+            form = ("leaf", lf, bf(rest[1]), str(int(rest[1])))
         elif rest[0] == "timedp":
             if len(rest) != 3 or not all(x.isdigit() and int(x) < 1 << 64 for x in rest[1:]):
                 return "bad-op"
             dur, itv = bf(rest[1]), bf(rest[2])
+            pb = str(int(rest[2]))
             if itv > dur:
-                itv = dur
-            form = ("leaf", ("timed", dur), itv)
+                itv, pb = dur, str(int(rest[1]))       # `if (interval > duration) interval = duration;`
+            form = ("leaf", ("timed", dur), itv, pb)
+        elif rest[0] == "timedd":
+            if len(rest) != 2 or not rest[1].lstrip("-").isdigit() or not (-I63 <= int(rest[1]) < I63):
+                return "bad-op"
+            form = ("leaf", ("timedns", int(rest[1])), None)
         elif rest[0] == "costconv":
             if len(rest) != 3 or not rest[1].isdigit() or not rest[2].isdigit() or int(rest[2]) >= 1 << 64:
                 return "bad-op"
@@ -425,6 +497,8 @@ class Spec:
             o = self.make_leaf(form[1], form[2])
             if o is None:
                 return "unknown"
+            if len(form) > 3:
+                o.period_bits = form[3]
             self.names[name] = o
         return "ok"
 
@@ -497,6 +571,8 @@ class Spec:
             wrapped = [x for x, _ in snap_iter if x.count >= U32]
             if wrapped:
                 klass = "iter-wrap"
+            if any(x.kind == "timed" and getattr(x, "overflowing", False) for x in self.reach(o, [])):
+                klass = "timed-overflow"
             what = "evaluation answered %r, the property says %r" % (out, exp)
             if klass == "iter-wrap":
                 what += " (an iteration counter passed 2^32, where a 32-bit counter wraps)"
@@ -505,7 +581,7 @@ class Spec:
 
     def note_timed(self, o, out):
         """never reverting, for a timed condition evaluated directly under a monotone clock"""
-        if o.kind == "timed" and not o.polled and not o.term:
+        if o.kind == "timed" and not o.polled and not o.term and not getattr(o, "overflowing", False):
             now = self.clock
             if out.startswith("r=1"):
                 if o.seen_true is None or now < o.seen_true:
@@ -615,6 +691,8 @@ def gen_logic(rng, nops):
             nm = g.pick()
             g.add("drop " + nm)
             g.names.remove(nm)
+        elif x < 45:
+            g.add("period " + g.pick())
         elif x < 52:
             g.add("term " + g.pick())
         elif x < 60:
@@ -728,7 +806,7 @@ def gen_cost(rng):
     g = G(rng)
     r = rng
     w = r.choice([1, 1, 2, 2, 3, 4, 5, 10, 10, r.range(1, 12), 0])
-    eps = r.choice([0.1, 0.1, 0.01, 0.5, 0.0, 1.0, 1.5, -0.1, 1e-9, 0.25])
+    eps = r.choice([0.1, 0.1, 0.01, 0.5, 0.0, 1.0, 1.5, -0.1, 1e-9, 0.25, 0.1, 0.05, float("inf"), float("nan"), 2.0])
     cc = g.define("costconv %d %s" % (w, fb(eps)))
     cp = None
     if r.chance(1, 3):
@@ -783,8 +861,24 @@ def gen_timed_fake(rng):
     t0 = r.choice([0, 0, 12345, 10**12])
     g.add("clock %d" % t0)
     d = nice_duration(r)
-    a = g.define("timed " + fb(d))
+    fac = r.below(6)
+    if fac == 0:
+        # the (duration, interval) factory with an interval that is not positive, or a duration that is not (the
+        # interval is clamped to it): the direct form
+        a = g.define("timedp %s %s" % (fb(d), r.choice([fb(0.0), fb(-0.0), fb(-1.0), NAN_BITS]) if d > 0 else fb(r.choice([0.05, 1.0, 0.0]))))
+    elif fac == 1:
+        a = g.define("poll %s timed %s" % (r.choice([fb(0.0), fb(-0.0), fb(-1e-300), NAN_BITS]), fb(d)))
+    elif fac == 2:
+        # the time::duration overload, whole nanoseconds (no microsecond truncation)
+        d = float(Fraction(int(Fraction(d) * 10 ** 9), 10 ** 9)) if False else d
+        a = None
+    else:
+        a = g.define("timed " + fb(d))
     dn = int(Fraction(d) * 10**9)
+    if a is None:
+        dn = r.choice([dn, dn + 1, dn - 1, 0, 1, 999, 1001])
+        a = g.define("timedd %d" % dn)
+    g.add("period " + a)
     pts = sorted(set([t0, t0 + dn // 2] + [t0 + dn + k for k in (-3000, -2000, -1001, -1000, -999, -1, 0, 1, 999, 1000, 1001,
                                                                     2000, 2001, 3000, 10**9)]))
     pts = [p for p in pts if p >= t0 and abs(p) < 10**14] or [t0]
@@ -824,6 +918,126 @@ def gen_timed_fake(rng):
     return g.lines
 
 
+HUGE = [float("inf"), 1.7976931348623157e308, 1e300, 1e19, 1e10, 9.3e9, 9223372036.0, 9223372035.5, 9.2233720368e9]
+
+
+def gen_timed_overflow(rng):
+    """durations that do not fit the clock's 64-bit nanoseconds (292 years and more, +infinity, DBL_MAX,
+    time::duration::max(): the "run for ever" idioms), through every timed factory; the property says such a
+    condition is false at every reachable time (finding F195: the code wraps around)"""
+    g = G(rng)
+    r = rng
+    t0 = r.choice([0, 0, 777, 10 ** 12])
+    g.add("clock %d" % t0)
+    k = r.below(6)
+    if k == 0:
+        a = g.define("timed " + fb(r.choice(HUGE)))
+    elif k == 1:
+        a = g.define("timedd %d" % r.choice([I63 - 1, I63 - 2, I63 - FAKE_BASE - t0, I63 - FAKE_BASE - t0 + 1000, 9 * 10 ** 18 + 2 * 10 ** 17]))
+    elif k == 2:
+        a = g.define("timedp %s %s" % (fb(r.choice(HUGE)), r.choice([fb(0.0), fb(-1.0), NAN_BITS, fb(-0.0)])))
+    elif k == 3:
+        # (not through `poll … timed`: there the end point is computed by the harness's own - sanitized - copy of
+        # the expression, and UBSan stops it: "signed integer overflow … cannot be represented in type 'long'")
+        a = g.define("timedp %s %s" % (fb(r.choice(HUGE)), fb(-float("inf"))))
+    elif k == 4:
+        # the last durations that still fit: never true, no wrap (must stay green)
+        a = g.define("timedd %d" % r.choice([I63 - 1 - FAKE_BASE - t0, I63 - 1 - FAKE_BASE - t0 - 5, 9 * 10 ** 18]))
+    else:
+        a = g.define("timed " + fb(r.choice([9.2e9, 9.1e9, 1e9, 3e8])))
+    g.ev(a)
+    for step in (1, 999, 10 ** 9, 10 ** 12):
+        g.add("clock %d" % (t0 + step))
+        g.ev(a)
+    if r.chance(1, 3):
+        n = g.define("never")
+        o = g.define("or %s %s" % (n, a), 1)
+        g.ev(o)
+    if r.chance(1, 3):
+        g.add("term " + a)
+        g.ev(a)
+    return g.lines
+
+
+def gen_timed_polled_sync(rng):
+    """the periodic timed form (timedPlannerTerminationCondition(duration, interval), as Planner::solve(double)
+    builds it) under the script's clock, to the nanosecond and without real-time margins: after every clock
+    change a `sync` handshake waits until the poller has read the new clock twice (so its first such reading
+    is in the cache).  Exactly one poller per script.  Interval equal to / larger than the duration (clamp),
+    tiny and denormal intervals."""
+    g = G(rng)
+    r = rng
+    t0 = r.choice([0, 5000, 10 ** 12])
+    g.add("clock %d" % t0)
+    form = r.below(4)
+    if form == 0:
+        d = r.choice([0.002, 0.004, 0.0105, 0.02])
+        itv = r.choice([d, 2 * d, 1e9])                 # clamped to the duration
+    elif form == 1:
+        d = round(r.uniform(0.001, 30.0), r.choice([1, 3, 6]))
+        itv = r.choice([min(d / 100.0, 0.1) if d >= 1 else 0.001, 0.001, 0.0015, 0.0004])
+        itv = min(itv, 0.02)
+    elif form == 2:
+        d = nice_duration(r)
+        if d <= 0:
+            d = 1.5
+        itv = r.choice([1e-9, 5e-324, 1e-6, 0.001])
+    else:
+        d = float(r.range(1, 50))
+        itv = min(d / 100.0, 0.02)
+    if itv > d and d > 0.02:
+        itv = 0.001
+    if r.chance(1, 4):
+        a = g.define("poll %s timed %s" % (fb(min(itv, 0.02)), fb(d)))      # the two-argument constructor, no clamp
+    else:
+        a = g.define("timedp %s %s" % (fb(d), fb(itv)))
+    b = g.fresh()
+    g.add("copy %s %s" % (a, b))
+    g.names.append(b)
+    g.add("period " + b)
+    dn = int(Fraction(d) * 10 ** 9)
+    pts = sorted(set([t0, t0 + dn // 2] + [t0 + dn + k for k in (-3000, -2000, -1000, -1, 0, 1, 1000, 2000, 2001, 3000, 10 ** 9)]))
+    pts = [p_ for p_ in pts if p_ >= t0]
+    if r.chance(1, 2):
+        pts = sorted(r.choice(pts) for _ in range(r.range(3, 7)))
+    g.add("sync")
+    g.ev(a)
+    for p_ in pts:
+        g.add("clock %d" % p_)
+        g.add("sync")
+        g.ev(r.choice([a, b]))
+    if r.chance(1, 2):
+        g.add("term " + r.choice([a, b]))
+        g.ev(a)
+        g.add("clock %d" % t0)
+        g.ev(b)
+    return g.lines
+
+
+def gen_solvefn(rng):
+    """Planner::solve(fn, checkInterval): non-positive / NaN intervals give the direct form (the predicate runs on
+    the caller's thread, once per evaluation, and the answers are its next values - across repeated solves on the
+    same predicate), positive ones the periodic form (it runs on another thread only)"""
+    g = G(rng)
+    r = rng
+    for i in range(3):
+        g.script(i)
+    g.add("script 7 %d" % r.below(2))
+    for _ in range(r.range(2, 7)):
+        if r.chance(2, 3):
+            g.add("solvefn %d %s" % (r.below(3), r.choice([fb(0.0), fb(-0.0), fb(-1.0), NAN_BITS, fb(-float("inf")), fb(-5e-324)])))
+        else:
+            if r.chance(1, 2):
+                g.add("script 7 %d" % r.below(2))
+            g.add("solvefn 7 %s" % r.choice([fb(0.001), fb(1e-9), fb(5e-324), fb(0.0015), fb(0.0004)]))
+        if r.chance(1, 3):
+            g.script(r.below(3))
+        if r.chance(1, 3):
+            p = g.define("pred %d" % r.below(3))
+            g.ev(p)
+    return g.lines
+
+
 def gen_adversarial(rng):
     """ill-formed lines, unknown and duplicate names, evaluation of dropped names: both sides must
     answer bad-op / unknown / dup and stay in step"""
@@ -839,7 +1053,8 @@ def gen_adversarial(rng):
             "clock x", "wait", "wait x", "cost", "cost x", "cost 99999999999999999999999", "soln", "soln 2 0", "soln 0",
             "solnclear now", "solve", "solve x", "frobnicate", "EV %s" % a, "def z itc nope", "def z poll 0 itc nope",
             "itcspin nope 3", "itcspin", "gate", "gate 0 0 1", "gate 0 1 2", "gate x 1 0", "await", "await x", "release x",
-            "settle now"]
+            "settle now", "period", "period nope", "sync now", "solvefn", "solvefn 0", "solvefn x 0", "def y timedd", "def y timedd x",
+            "def y timedd 9223372036854775808"]
     for _ in range(r.range(8, 25)):
         g.add(r.choice(junk))
         if r.chance(1, 3):
@@ -938,7 +1153,22 @@ def gen_handshake(rng, k, verdict, variant):
     Whatever the poller does afterwards, every evaluation after terminate() must answer true."""
     g = G(rng, fake=True)
     r = rng
-    per = {"inflight": 0.001, "after-store": 0.3, "before-next": 0.001}[variant]
+    per = {"inflight": r.choice([0.001, 0.001, 1e-9, 5e-324, 0.0015]), "after-store": 0.3,
+           "before-next": r.choice([0.001, 1e-9, 0.0004]), "immediately": r.choice([0.001, 1e-9, 0.05])}[variant]
+    if variant == "immediately":
+        # terminate() right after construction: before, during or after the poller's first call - any of them
+        g.add("script 0 %d" % r.below(2))
+        p = g.define("poll %s pred 0" % fb(per))
+        g.add("term " + p)
+        for _ in range(3):
+            g.ev(p)
+        q = g.fresh()
+        g.add("copy %s %s" % (p, q))
+        g.names.append(q)
+        g.ev(q)
+        g.add("script 0 %d" % r.below(2))
+        g.ev(p)
+        return g.lines
     g.add("script 0 %d" % r.below(2))
     g.add("gate 0 %d %d" % (k, verdict))
     p = g.define("poll %s pred 0" % fb(per))
@@ -978,8 +1208,10 @@ def canon(impl, model):
         elif y.startswith("polled=") and x.startswith("polled="):
             # a field either side could not determine (`?`) is not compared
             fx, fy = x.split(), y.split()
-            if len(fx) == len(fy) == 3:
-                for j in range(3):
+            if len(fx) == len(fy) and len(fx) in (3, 4):
+                if fx[0] == "polled=?":
+                    fx = fy = ["polled=?"]
+                for j in range(len(fx)):
                     if fx[j].endswith("=?") or fy[j].endswith("=?"):
                         fx[j] = fy[j] = fx[j].split("=")[0] + "=?"
                 x, y = " ".join(fx), " ".join(fy)
@@ -988,8 +1220,14 @@ def canon(impl, model):
     return a, b
 
 
+# VERIF_C18_TIMED=sat makes the model follow the proposed repair of F195 (notes/C18-fix-F195.diff) instead of the
+# code as it is - used to validate the repair on a scratch worktree; the oracle is the same either way
+TIMED_MODE = os.environ.get("VERIF_C18_TIMED", "")
+
+
 def run_once(ck, hbin, script):
-    impl, rc, err, model = ck.run_pair(hbin, DRIVER, script, timeout=120)
+    sent = [script[0] + (" timed=" + TIMED_MODE if TIMED_MODE in ("sat", "wrap") else "")] + list(script[1:])
+    impl, rc, err, model = ck.run_pair(hbin, DRIVER, sent, timeout=120)
     impl = impl or []
     fail, spec = oracle(script, impl)
     if fail is None and rc != 0:
@@ -1081,7 +1319,11 @@ def judge(ck, hbin, script, tag, res):
             small = [script[0]] + core.ddmin(script[1:], still, max_tests=150)
         r2 = run_script(ck, hbin, small)
         f2 = r2["fail"] or fail
-        rec = {"engine": "ptc", "class": f2[2], "what": f2[1]}
+        a2, b2 = canon(r2["impl"], r2["model"])
+        # does the implementation do exactly what the as-coded model does at the failing line?  Known findings are
+        # matched on this too, so a *different* wrong answer of the same class is a violation
+        rec = {"engine": "ptc", "class": f2[2], "what": f2[1],
+               "as_coded": bool(f2[0] < len(a2) and f2[0] < len(b2) and a2[f2[0]] == b2[f2[0]])}
         new = ck.report(rec, script=small, expected=r2["model"], observed=r2["impl"], engine="ptc")
         if new:
             ck.log("property failure [%s]: %s (script of %d ops after shrinking)" % (f2[2], f2[1], len(small) - 1))
@@ -1165,10 +1407,16 @@ def run(ck):
         jobs.append(("timed-fake-clock", gen_timed_fake(ck.rng.fork("timed%d" % i))))
     for i in range(n_adv):
         jobs.append(("adversarial", gen_adversarial(ck.rng.fork("adv%d" % i))))
+    for i in range(40 if quick else 400):
+        jobs.append(("timed-overflow", gen_timed_overflow(ck.rng.fork("tover%d" % i))))
+    for i in range(40 if quick else 400):
+        jobs.append(("timed-polled-sync", gen_timed_polled_sync(ck.rng.fork("tsync%d" % i))))
+    for i in range(40 if quick else 400):
+        jobs.append(("solvefn", gen_solvefn(ck.rng.fork("sfn%d" % i))))
     for rep in range(1 if quick else 8):
         for k in (1, 2, 3):
             for verdict in (0, 1):
-                for variant in ("inflight", "after-store", "before-next"):
+                for variant in ("inflight", "after-store", "before-next", "immediately"):
                     jobs.append(("handshake-" + variant,
                                  gen_handshake(ck.rng.fork("hs%d-%d-%d-%s" % (rep, k, verdict, variant)), k, verdict, variant)))
     real = []
@@ -1244,6 +1492,10 @@ MANIFEST = {
             "0.5 s margins), plus an independent Python reading of the property on the implementation's own outputs.",
     "note": "Trusted: Lean kernel, the three standard axioms, the hand-written model outside the scripts the correspondence "
             "explored, the harness (private access for its own translation unit, clock interposition), the Python spec. "
+            "Every factory of PlannerTerminationCondition.{h,cpp} incl. the time::duration overload, the interval clamp "
+            "(read back), Planner::solve(double) and solve(fn, interval) is driven; the periodic timed form is compared to the "
+            "nanosecond through a clock-read handshake. Known finding F195 (timed end points beyond the clock's 64-bit range "
+            "wrap around; matched only on the exact as-coded wrong answer). "
             "Assumed: monotone clock, scheduler slack below 0.5 s (3 attempts), microsecond truncation of durations not "
             "judged, IEEE rounding of the cost average modelled (executed bit-exactly) but proved over Q only. "
             "F16 (32-bit iteration counter wrapped at 2^32 evaluations) is fixed in /repo 354f9f45d; the scripts that "
